@@ -74,7 +74,10 @@ impl Channel {
         #[cfg(feature = "simulation")]
         let resp = {
             let conn = self.connection.get_or_init().await?;
-            conn.lock().await.send_request(request).await?
+            // The lock is only held while the request is handed to the connection, not
+            // until its response arrives: the streams of one channel are multiplexed.
+            let pending = conn.lock().await.send_request(request);
+            pending.await?
         };
 
         Ok(resp)
